@@ -143,25 +143,27 @@ Proof. intro c. apply Nat.lt_succ_diag_r. Qed.
 Definition w_example : world :=
   delete_cache
     (run_proc S repaired
-       (run_proc S repaired
-          (run_proc S repaired w0 (P u1 L [decl L "1.0"; decl L "2.0"]))
-          (mkProc u2 g [decl g "3.0"; undecl g "3.0"] (Some (1, 0, true))))
-       (P u2 L [undecl L "1.0"]))
+      (run_proc S repaired
+         (run_proc S repaired
+            (run_proc S repaired w0 (P u1 L [decl L "1.0"; decl L "2.0"]))
+            (mkProc u2 g [decl g "3.0"; undecl g "3.0"] (Some (1, 0, true))))
+         (P u2 L [undecl L "1.0"]))
+      (P u2 L []))
     u1 s1 L.
 
 Example w_example_reachable : reachable S repaired w_example.
-Proof. unfold w_example. repeat (first [apply R_del | apply R_proc]). apply R_init. exact nodup_path. Qed.
+Proof. unfold w_example. apply R_del. do 4 apply R_proc. apply R_init. exact nodup_path. Qed.
 
+(* user u2's cache files are believed, user u1's are not (one was deleted); the database holds
+   a 2.0 and lost a 1.0 (undeclared) and a 3.0 (undeclared by a command that died before its
+   cache update) *)
 Example w_example_nontrivial :
-  q_db w_example (QFindTagged a current L) = AStackVer (Some (s1, lit "1.0")) -> False.
-Proof. vm_compute. discriminate. Qed.
+  believed w_example u2 s1 (fallbacks L) = true /\ believed w_example u1 s1 (fallbacks L) = false /  q_db w_example (QFind a (lit "2.0") L) = AStackRec (Some (s1, (lit "/prod/a", lit "/prod/a/ups/a.table"))) /  q_db w_example (QFind a (lit "3.0") g) = AStackRec None.
+Proof. vm_compute. repeat split. Qed.
 
 Example w_example_answers :
-  q_cache (snd (load S repaired w_example u1 L)) (QFind a (lit "2.0") L) =
-    AStackRec (Some (s1, (lit "/prod/a", lit "/prod/a/ups/a.table"))) /\
-  q_cache (snd (load S repaired w_example u1 L)) (QFind a (lit "3.0") g) =
-    AStackRec (Some (s1, (lit "/prod/a", lit "/prod/a/ups/a.table"))) /\
-  q_cache (snd (load S repaired w_example u1 L)) (QDeclared s1 a (lit "1.0") L) = ABool false.
+  q_cache (snd (load S repaired w_example u2 L)) (QFind a (lit "2.0") L) =
+    AStackRec (Some (s1, (lit "/prod/a", lit "/prod/a/ups/a.table"))) /  q_cache (snd (load S repaired w_example u2 L)) (QFind a (lit "3.0") g) = AStackRec None /  q_cache (snd (load S repaired w_example u1 L)) (QDeclared s1 a (lit "1.0") L) = ABool false.
 Proof. vm_compute. repeat split. Qed.
 
 (* D1, the pinned ProductFamily.removeVersion: it looks for the tags of the version among the
@@ -181,7 +183,7 @@ Example coherent_refuted_pinned :
   q_db (w_d1 pinned_remove) (QFindTagged a current g) = AStackVer None.
 Proof.
   split; [|vm_compute; split; reflexivity].
-  unfold w_d1. repeat apply R_proc. apply R_init. exact nodup_path.
+  unfold w_d1. do 4 apply R_proc. apply R_init. exact nodup_path.
 Qed.
 
 Example d1_repaired :
@@ -200,7 +202,7 @@ Example coherent_refuted_pinned_flavors :
   q_cache (snd (load S pinned_flavors (w_fl pinned_flavors) u1 L)) (QDeclared s1 a (lit "1.0") g) = ABool false /\
   q_db (w_fl pinned_flavors) (QDeclared s1 a (lit "1.0") g) = ABool true.
 Proof.
-  split; [unfold w_fl; repeat apply R_proc; apply R_init; exact nodup_path|].
+  split; [unfold w_fl; do 2 apply R_proc; apply R_init; exact nodup_path|].
   split; [right; left; reflexivity|]. vm_compute. split; reflexivity.
 Qed.
 
@@ -220,7 +222,7 @@ Example coherent_refuted_coarse_clock :
   q_cache (snd (load stuck repaired w_coarse u1 g)) (QDeclared s1 a (lit "2.0") g) = ABool false /\
   q_db w_coarse (QDeclared s1 a (lit "2.0") g) = ABool true.
 Proof.
-  split; [unfold w_coarse; repeat apply R_proc; apply R_init; exact nodup_path|].
+  split; [unfold w_coarse; do 2 apply R_proc; apply R_init; exact nodup_path|].
   vm_compute. split; reflexivity.
 Qed.
 
@@ -244,6 +246,6 @@ Example unconsulted_flavor_not_served :
   q_cache (snd (load S repaired w_foreign u1 L)) (QDeclared s1 a (lit "1.0") D) = ABool false /\
   q_db w_foreign (QDeclared s1 a (lit "1.0") D) = ABool true.
 Proof.
-  split; [unfold w_foreign; repeat apply R_proc; apply R_init; exact nodup_path|].
+  split; [unfold w_foreign; do 3 apply R_proc; apply R_init; exact nodup_path|].
   split; [intros [H|[H|[]]]; discriminate|]. vm_compute. split; reflexivity.
 Qed.
